@@ -3,6 +3,7 @@ package main
 import (
 	"fmt"
 	"go/types"
+	"math/big"
 	"strings"
 
 	"golang.org/x/tools/go/ssa"
@@ -65,10 +66,32 @@ func checkC02(c *Checker) {
 		if !c.undecidedEffects("C02-R1", "Buffer.Slice", s) {
 			b := buf{paramName(fn, 0)}
 			start, end := mkAtom(paramName(fn, 1), intT), mkAtom(paramName(fn, 2), intT)
-			if ps := panicPaths(s); len(ps) > 0 {
-				c.refuted("C02-R1", "Buffer.Slice/panic-path", c.pos(ps[0].Pos), "explicit panic path (bounds must follow Go slices): "+ps[0].St.facts.String(), "")
+			// an explicit bounds check (a friendlier panic message) is fine as long as it panics only where the slice
+			// expression itself would: the path's decisions must imply lo < 0, hi < lo or hi > cap for
+			// lo = channels*start, hi = channels*end. Decisions stated in frames are scaled by the channel count
+			// (>= 1 under the quantifier) first.
+			for _, o := range panicPaths(s) {
+				f := factsWith(o.St.facts, shapeAssume(b))
+				ch := normInt(b.ch())
+				for _, fc := range nonAxiomFacts(o.St.facts) {
+					if fc.Kind == CGE0 && fc.P != nil && len(fc.P.m) <= 4 {
+						f.add(Cond{Kind: CGE0, P: fc.P.Mul(ch), Tag: "scaled"})
+					}
+				}
+				lo, hi := ch.Mul(normInt(start)), ch.Mul(normInt(end))
+				inGo := f.impliesGE0(lo.Neg().AddInt(-1)) || f.impliesGE0(lo.Sub(hi).AddInt(-1)) || f.impliesGE0(hi.Sub(normInt(b.capT())).AddInt(-1))
+				if !inGo {
+					c.refuted("C02-R1", "Buffer.Slice/panic-path", c.pos(o.Pos), "explicit panic path (bounds must follow Go slices): "+o.St.facts.String(), "")
+					break
+				}
 			}
-			rets := retPaths(s)
+			// (a path only a zero-channel buffer takes, e.g. the exemption of an explicit bounds check, is C20's)
+			var rets []Outcome
+			for _, o := range retPaths(s) {
+				if feasible(o, shapeAssume(b)) {
+					rets = append(rets, o)
+				}
+			}
 			if len(rets) != 1 {
 				c.refuted("C02-R1", "Buffer.Slice", c.pos(fn.Pos()), fmt.Sprintf("%d return paths: bounds are clamped or special-cased", len(rets)), "")
 			}
@@ -137,6 +160,20 @@ func checkC02(c *Checker) {
 				chOK := valTerm(fi.at(hdr, fi.channels)) != nil && eqInt(valTerm(fi.at(hdr, fi.channels)), b.ch())
 				c.expect(chOK, "C02-R2", "Buffer.Slice/channels", c.pos(o.Pos), "channels copied", "channels of the view is "+valString(fi.at(hdr, fi.channels)))
 				bdOK := valTerm(fi.at(hdr, fi.bitDepth)) != nil && eqInt(valTerm(fi.at(hdr, fi.bitDepth)), b.depth())
+				if !bdOK && valTerm(fi.at(hdr, fi.bitDepth)) != nil {
+					// by D0 every buffer's depth is 8*sizeof(T): a view that takes it from the element type gets the
+					// same value as one that copies the receiver's
+					ct := canon(valTerm(fi.at(hdr, fi.bitDepth)))
+					if a := sizeofAtomOf(ct); a.Name != "sizeof(?)" {
+						bdOK = true
+						for _, sz := range []int64{1, 2, 4, 8} {
+							v := canon(ct.subst(map[string]*Term{a.Name: mkInt(sz, a.Typ)}))
+							if z, okc := normIntConst(v); !okc || z != 8*sz {
+								bdOK = false
+							}
+						}
+					}
+				}
 				c.expect(bdOK, "C02-R2", "Buffer.Slice/bitDepth", c.pos(o.Pos), "bitDepth copied", "bitDepth of the view is "+valString(fi.at(hdr, fi.bitDepth)))
 				m := mods(o)
 				c.expect(len(m) == 0, "C02-R2", "Buffer.Slice/receiver", c.pos(o.Pos), "no store to the receiver or anything else", "Slice modifies memory: "+describeEffects(m))
@@ -180,6 +217,9 @@ func checkC04(c *Checker) {
 	fi := bufferFields(s.Fn.Params[0].Type().Underlying().(*types.Pointer).Elem())
 	nA, nB := 0, 0
 	for _, o := range retPaths(s) {
+		if !feasible(o, shapeAssume(b)) {
+			continue // a path only a buffer without channels takes (C20's subject)
+		}
 		m := mods(o)
 		fullHere := o.St.facts.eval(full)
 		switch fullHere {
@@ -270,7 +310,7 @@ func checkC14(c *Checker) {
 		pb, chn := parent(fn)
 		want := specAdd(specMul(pb.ch(), mkAtom(paramName(fn, 1), intT)), chn)
 		ret := mergedRet(retPaths(s))
-		ok := ret != nil && isElemOf(ret, pb.stor(), want) && len(panicPaths(s)) == 0
+		ok := ret != nil && isElemOf(ret, pb.stor(), want) // (explicit panic paths are judged by C14-B)
 		got := "?"
 		if ret != nil && ret.Op == OpElem {
 			got = pretty(canon(ret.Args[0]))
@@ -280,7 +320,7 @@ func checkC14(c *Checker) {
 	if fn, s := get("C14-P", "SetSample"); fn != nil {
 		pb, chn := parent(fn)
 		want := specAdd(specMul(pb.ch(), mkAtom(paramName(fn, 1), intT)), chn)
-		ok := len(retPaths(s)) == 1 && len(panicPaths(s)) == 0
+		ok := len(retPaths(s)) == 1 // (explicit panic paths are judged by C14-B)
 		got := ""
 		if ok {
 			m := mods(retPaths(s)[0])
@@ -316,8 +356,30 @@ func checkC14(c *Checker) {
 				}
 			}
 		}
-		if len(panicPaths(s)) > 0 {
-			ok, d = false, "explicit panic path in the view accessor"
+		// an explicit index check (a friendlier panic) is fine when it fires only where the parent's own index
+		// expression would: the path's decisions (scaled by the channel count where stated per channel) must imply
+		// that the interleaved position is negative or not below the parent's length
+		for _, po := range panicPaths(s) {
+			if len(mods(po)) > 0 {
+				ok, d = false, "the view accessor modifies memory before it panics"
+			}
+			f := simplifyFacts(po.St.facts, shapeAssume(pb))
+			f.add(Cond{Kind: CGE0, P: normInt(pb.lenT())})
+			f.add(Cond{Kind: CGE0, P: normInt(pb.ch()).AddInt(-1)})
+			f.add(Cond{Kind: CGE0, P: normInt(chn)})
+			f.add(Cond{Kind: CGE0, P: normInt(pb.ch()).Sub(normInt(chn)).AddInt(-1)})
+			for _, fc := range nonAxiomFacts(simplifyFacts(po.St.facts, shapeAssume(pb))) {
+				if fc.Kind == CGE0 && fc.P != nil && len(fc.P.m) <= 4 {
+					f.add(Cond{Kind: CGE0, P: fc.P.Mul(normInt(pb.ch())), Tag: "scaled"})
+				}
+			}
+			i := normInt(mkAtom(paramName(fn, 1), intT))
+			ci := normInt(pb.ch()).Mul(i)
+			ln := normInt(pb.lenT())
+			inParent := f.impliesGE0(i.Neg().AddInt(-1)) || f.impliesGE0(want.Neg().AddInt(-1)) || f.impliesGE0(want.Sub(ln)) || f.impliesGE0(ci.Sub(ln))
+			if !inParent {
+				ok, d = false, "explicit panic path in the view accessor that a valid access can take: "+factsBrief(po.St.facts)
+			}
 		}
 		c.expect(ok, "C14-B", "C."+name, c.pos(fn.Pos()), fmt.Sprintf("%d bounds implied by the parent's access", n), d)
 	}
@@ -344,10 +406,27 @@ func checkC14(c *Checker) {
 	if fn := c.anchor("C14-F", "(*Buffer[T]).Channel"); fn != nil {
 		s := c.Summary(fn)
 		if !c.undecidedEffects("C14-F", "Buffer.Channel", s) {
-			ok := len(retPaths(s)) == 1 && len(panicPaths(s)) == 0
+			// the property speaks about the channels the buffer has: paths that only an index outside
+			// [0, channels) takes (a range check that panics) are outside it
+			valid := &Facts{}
+			cAtom := normInt(mkAtom(paramName(fn, 1), intT))
+			valid.add(Cond{Kind: CGE0, P: cAtom})
+			valid.add(Cond{Kind: CGE0, P: normInt(buf{paramName(fn, 0)}.ch()).Sub(cAtom).AddInt(-1)})
+			var rets, panics []Outcome
+			for _, o := range retPaths(s) {
+				if feasible(o, valid) {
+					rets = append(rets, o)
+				}
+			}
+			for _, o := range panicPaths(s) {
+				if feasible(o, valid) {
+					panics = append(panics, o)
+				}
+			}
+			ok := len(rets) == 1 && len(panics) == 0
 			got := ""
 			if ok {
-				o := retPaths(s)[0]
+				o := rets[0]
 				sv, isS := o.Ret.(StructV)
 				got = valString(o.Ret)
 				ok = isS && len(sv.F) == 2 && len(mods(o)) == 0
@@ -381,8 +460,13 @@ func checkC13(c *Checker) {
 		if !c.undecidedEffects("C13-A1", "Alloc", s) {
 			a := paramName(fn, 0)
 			chn, ln, cp := mkAtom(a+".Channels", intT), mkAtom(a+".Length", intT), mkAtom(a+".Capacity", intT)
-			if ps := panicPaths(s); len(ps) > 0 {
-				c.refuted("C13-A1", "Alloc/panic-path", c.pos(ps[0].Pos), "explicit panic path", "")
+			// a validation that rejects only allocators outside the quantifier (a negative field, Length > Capacity,
+			// a size that overflows int) leaves the property alone
+			for _, po := range panicPaths(s) {
+				if !c.inadmissibleAllocatorPath(po) {
+					c.refuted("C13-A1", "Alloc/panic-path", c.pos(po.Pos), "explicit panic path an admissible allocator (Channels >= 1, 0 <= Length <= Capacity, size within int) can take: "+factsBrief(po.St.facts), "")
+					break
+				}
 			}
 			okAll := len(retPaths(s)) > 0
 			detail := ""
@@ -399,7 +483,8 @@ func checkC13(c *Checker) {
 					break
 				}
 				d, isSl := fi.at(hdr, fi.data).(SliceV)
-				if !isSl || d.Stor == nil || d.Stor.Kind != SFresh || !eqInt(d.Off, zeroT()) || !eqInt(d.Len, specMul(chn, ln)) || !eqInt(d.Cap, specMul(chn, cp)) {
+				if !isSl || d.Stor == nil || d.Stor.Kind != SFresh || !eqInt(d.Off, zeroT()) || !(eqInt(d.Len, specMul(chn, ln)) || eqUnder(d.Len, specMul(chn, ln), admissibleAllocator(chn, ln, cp))) ||
+					!(eqInt(d.Cap, specMul(chn, cp)) || eqUnder(d.Cap, specMul(chn, cp), admissibleAllocator(chn, ln, cp))) {
 					okAll, detail = false, "data is not make([]T, Channels*Length, Channels*Capacity): "+valString(fi.at(hdr, fi.data))
 					break
 				}
@@ -550,3 +635,57 @@ func (c *Checker) depthOf(tname string) (int64, bool) {
 }
 
 var _ = strings.Contains
+
+// inadmissibleAllocatorPath: the decisions of the path contradict an admissible allocator x: x.Channels >= 1,
+// 0 <= x.Length <= x.Capacity, x.Channels*x.Capacity <= MaxInt (x found from the atoms of the path).
+func (c *Checker) inadmissibleAllocatorPath(o Outcome) bool {
+	prefix := ""
+	for _, fc := range nonAxiomFacts(o.St.facts) {
+		if fc.P == nil {
+			continue
+		}
+		fc.P.mentions(func(x *Term) bool {
+			if x.Op == OpAtom {
+				for _, suf := range []string{".Channels", ".Length", ".Capacity"} {
+					if strings.HasSuffix(x.Name, suf) {
+						prefix = strings.TrimSuffix(x.Name, suf)
+					}
+				}
+			}
+			return false
+		})
+	}
+	if prefix == "" {
+		return false
+	}
+	ch, ln, cp := normInt(mkAtom(prefix+".Channels", intT)), normInt(mkAtom(prefix+".Length", intT)), normInt(mkAtom(prefix+".Capacity", intT))
+	bits := 8 * c.W.Interp.sizes.Sizeof(types.Typ[types.Int])
+	maxInt := polyConst(new(big.Int).Sub(pow2(bits-1), big.NewInt(1)))
+	adm := &Facts{}
+	adm.add(Cond{Kind: CGE0, P: ch.AddInt(-1)})
+	adm.add(Cond{Kind: CGE0, P: ln})
+	adm.add(Cond{Kind: CGE0, P: cp.Sub(ln)})
+	adm.add(Cond{Kind: CGE0, P: cp})
+	adm.add(Cond{Kind: CGE0, P: maxInt.Sub(ch.Mul(cp))})
+	if !feasible(o, adm) {
+		return true
+	}
+	// a size check stated with a division (Capacity > MaxInt/Channels): scale the decisions by the channel count
+	f := factsWith(o.St.facts, adm)
+	for _, fc := range nonAxiomFacts(o.St.facts) {
+		if fc.Kind == CGE0 && fc.P != nil && len(fc.P.m) <= 4 {
+			f.add(Cond{Kind: CGE0, P: fc.P.Mul(ch), Tag: "scaled"})
+		}
+	}
+	return f.impliesGE0(ch.Mul(cp).Sub(maxInt).AddInt(-1)) || f.impliesGE0(ch.Mul(ln).Sub(maxInt).AddInt(-1))
+}
+
+// admissibleAllocator: the allocators C13 and C10 quantify over (Channels >= 1 is added by the callers that need it).
+func admissibleAllocator(chn, ln, cp *Term) *Facts {
+	f := &Facts{}
+	f.add(Cond{Kind: CGE0, P: normInt(chn)})
+	f.add(Cond{Kind: CGE0, P: normInt(ln)})
+	f.add(Cond{Kind: CGE0, P: normInt(cp).Sub(normInt(ln))})
+	f.add(Cond{Kind: CGE0, P: normInt(cp)})
+	return f
+}
